@@ -42,6 +42,7 @@ from collections import namedtuple
 from collections.abc import Iterable
 from enum import Enum
 
+from psyclone.core import AccessType
 from psyclone.psyir.nodes.call import Call
 from psyclone.psyir.nodes.datanode import DataNode
 from psyclone.psyir.nodes.literal import Literal
@@ -914,6 +915,24 @@ class IntrinsicCall(Call):
         :type var_accesses: :py:class:`psyclone.core.VariablesAccessInfo`
 
         '''
+        # pylint: disable-next=import-outside-toplevel
+        from psyclone.psyir.nodes.schedule import Schedule
+        if isinstance(self.parent, Schedule):
+            # An intrinsic used as a statement is a subroutine (ALLOCATE,
+            # DEALLOCATE, RANDOM_NUMBER, MVBITS, SYSTEM_CLOCK, ...) and may
+            # modify the arguments that are passed by reference (including
+            # STAT=), so mark them READWRITE as is done for any other Call.
+            for arg in self.arguments:
+                if isinstance(arg, Reference):
+                    sig, indices_list = arg.get_signature_and_indices()
+                    var_accesses.add_access(sig, AccessType.READWRITE, arg)
+                    for indices in indices_list:
+                        for idx in indices:
+                            idx.reference_accesses(var_accesses)
+                else:
+                    arg.reference_accesses(var_accesses)
+            var_accesses.next_location()
+            return
         if (self.intrinsic.is_inquiry and not
                 var_accesses.options("COLLECT-ARRAY-SHAPE-READS")):
             # If this is an inquiry access (which doesn't actually access the
